@@ -73,8 +73,14 @@ class C14(Monitor):
         self.active_at_cancel[sub.outrel] = [(j.id, j.state) for j in act]
         if act:
             self.w.probe("cancel_with_active_batches")
+        err_history = any(r[2] in ("lock_timeout", "crash") for r in self.w.history)
         for j in act:
             sc = [x for x in self.scancels.get(j.id, [])]
+            if not sc and err_history:
+                # an earlier round crashed (e.g. a stall outlasted the lock timeout) between sbatch and
+                # the status update: the batch id was never persisted.  An error history is C11's subject.
+                self.w.probe("cancel_after_crashed_round")
+                continue
             if not sc:
                 self.bad("active_batch_not_canceled", "a batch that was active when the submission was canceled was never asked to be canceled",
                          f"batch id {j.id} ({j.state}, batch {j.batch_index}) has no scancel; persisted ids={((o.get('js') or {}).get('hpc_job_ids'))}")
